@@ -146,8 +146,10 @@ func extFullName(fn *types.Func) string {
 	return fn.Pkg().Path() + "." + fn.Name()
 }
 
-var osGhostFuncs = map[string]bool{"os.Exit": true, "fmt.Println": true, "fmt.Printf": true, "fmt.Print": true, "os.Create": true, "os.OpenFile": true,
-	"os.File.WriteString": true, "os.File.Sync": true, "os.File.Close": true, "os.File.Write": true, "io/ioutil.WriteFile": true, "os.WriteFile": true, "os.Remove": true}
+// ghost resources touched by process / stdout / file-system primitives
+var osGhostFuncs = map[string]string{"os.Exit": "exit", "fmt.Println": "stdout", "fmt.Printf": "stdout", "fmt.Print": "stdout", "fmt.Fprintf": "stdout", "fmt.Fprintln": "stdout", "fmt.Fprint": "stdout",
+	"os.Create": "fs", "os.OpenFile": "fs", "os.File.WriteString": "fs", "os.File.Sync": "fs", "os.File.Close": "fs", "os.File.Write": "fs", "os.File.Truncate": "fs", "os.File.Seek": "fs", "os.File.WriteAt": "fs",
+	"io/ioutil.WriteFile": "fs", "os.WriteFile": "fs", "os.Remove": "fs", "os.Truncate": "fs", "os.Rename": "fs"}
 
 func (p *Prog) heapNamesOf(u *Universe, t types.Type) []string {
 	if t == nil {
@@ -336,6 +338,9 @@ func (p *Prog) callEffects(fi *FuncInfo, info *types.Info, call *ast.CallExpr, e
 			}
 		case "panic":
 			e.Panics = true
+			if strings.Contains(fi.Pkg.PkgPath, "/cmd") {
+				e.Ghost["exit"] = true // a panic in the CLI ends the process with status 2
+			}
 		case "copy":
 			e.SliceStore = true
 		}
@@ -375,9 +380,18 @@ func (p *Prog) callEffects(fi *FuncInfo, info *types.Info, call *ast.CallExpr, e
 		if i := strings.LastIndex(full, "/"); i >= 0 && !strings.HasPrefix(full, "io/ioutil") {
 			short = full[i+1:]
 		}
-		if (osGhostFuncs[full] || osGhostFuncs[short]) && !strings.HasSuffix(fi.File, "/peg.go") {
+		cat := osGhostFuncs[full]
+		if cat == "" {
+			cat = osGhostFuncs[short]
+		}
+		if cat != "" && !strings.HasSuffix(fi.File, "/peg.go") {
 			// A-PEG-NODEBUG: the generated parser prints only when its Debug option is set, which the repository never does
-			e.Ghost["os"] = true
+			if strings.HasPrefix(short, "fmt.F") && len(call.Args) > 0 && exprString(call.Args[0]) == "os.Stderr" {
+				cat = ""
+			}
+			if cat != "" {
+				e.Ghost[cat] = true
+			}
 		}
 		switch full {
 		case "time.Now":
